@@ -61,6 +61,10 @@ func jobsFor(prop, tier string) []Job {
 		add("set", fmt.Sprintf("hashset.u%d", u), u, map[string]string{"c": "hashset"}, map[string]int{"u": u})
 		add("set", fmt.Sprintf("linkedhashset.u%d", u), u*u, map[string]string{"c": "linkedhashset"}, map[string]int{"u": u})
 		add("set", fmt.Sprintf("treeset.New.u%d", u+1), u*u, map[string]string{"c": "treeset", "ctor": "default"}, map[string]int{"u": u + 1})
+		for _, c := range []string{"hashset", "linkedhashset"} {
+			add("anysys", c+".float", 1, map[string]string{"c": c, "elem": "float"}, nil)
+		}
+		add("anysys", "linkedhashset.deep", 1, map[string]string{"c": "linkedhashset"}, map[string]int{"n": pick(24, 48), "deep": 1})
 		for _, c := range []string{"nat", "rev", "coarse"} {
 			add("set", fmt.Sprintf("treeset.%s.u%d", c, u+1), u*u, map[string]string{"c": "treeset", "cmp": c}, map[string]int{"u": u + 1})
 			n := pick(10, 14)
@@ -120,6 +124,9 @@ func jobsFor(prop, tier string) []Job {
 			add("iter", "btree6", 40, map[string]string{"c": "btree"}, map[string]int{"m": 6, "n": 23, "rank": 1, "fullpred": 3})
 		}
 	case "C13":
+		for _, c := range []string{"hashset", "linkedhashset", "treeset"} {
+			add("setalgbig", c+".large", 5, map[string]string{"c": c}, map[string]int{"maxa": pick(40, 80)})
+		}
 		u := pick(3, 4)
 		add("setalg", fmt.Sprintf("hashset.u%d", u), 1, map[string]string{"c": "hashset"}, map[string]int{"u": u})
 		add("setalg", fmt.Sprintf("linkedhashset.u%d", u), 9, map[string]string{"c": "linkedhashset"}, map[string]int{"u": u})
@@ -269,6 +276,11 @@ func jobsFor(prop, tier string) []Job {
 		u := pick(5, 6)
 		add("linked", fmt.Sprintf("linkedhashmap.u%d", u), 2, map[string]string{"c": "linkedhashmap"}, map[string]int{"u": u})
 		add("linked", fmt.Sprintf("linkedhashset.u%d", u), 3, map[string]string{"c": "linkedhashset"}, map[string]int{"u": u})
+		// deep: fresh keys / members dropped from the fingerprint (state = size), positions {0,1,mid,n-2,n-1};
+		// removal in the back half of the order list needs >= 7 entries, long Remove argument lists
+		dn := pick(24, 48)
+		add("linkeddeep", fmt.Sprintf("linkedhashmap.deep.n%d", dn), 3, map[string]string{"c": "linkedhashmap"}, map[string]int{"n": dn, "deep": 1})
+		add("linkeddeep", fmt.Sprintf("linkedhashset.deep.n%d", dn), 3, map[string]string{"c": "linkedhashset"}, map[string]int{"n": dn, "deep": 1})
 	case "C05":
 		n := pick(5, 7)
 		for _, k := range []string{"arraystack", "linkedliststack", "arrayqueue", "linkedlistqueue"} {
@@ -325,6 +337,12 @@ func allContainerJobs(q bool) []cjob {
 		js = append(js, cjob{c + ".deep", 8, map[string]string{"c": c}, map[string]int{"n": dn, "deep": 1}})
 	}
 	js = append(js, cjob{"circularbuffer16.deep", 4, map[string]string{"c": "circularbuffer"}, map[string]int{"cap": 16, "deep": 1}})
+	for _, c := range []string{"linkedhashset", "linkedhashmap"} {
+		js = append(js, cjob{c + ".deep", 3, map[string]string{"c": c}, map[string]int{"n": pick(20, 40), "deep": 1}})
+	}
+	for _, c := range []string{"hashset", "linkedhashset"} {
+		js = append(js, cjob{c + ".float", 1, map[string]string{"c": c, "elem": "float"}, map[string]int{}})
+	}
 	js = append(js, cjob{"hashset", 1, map[string]string{"c": "hashset"}, map[string]int{"u": n}})
 	js = append(js, cjob{"linkedhashset", 2, map[string]string{"c": "linkedhashset"}, map[string]int{"u": n}})
 	js = append(js, cjob{"treeset", 2, map[string]string{"c": "treeset"}, map[string]int{"u": n}})
@@ -479,6 +497,32 @@ func init() {
 			e.OnState = func(path []Op, build func() Inst, st *Stats) *Viol {
 				st.Nested["drains"]++
 				return build().(*heapBox[HE]).drain()
+			}
+		})
+	}
+	// a plain search of any system makeSys can build
+	jobKinds["anysys"] = func(j Job, r *JobResult) {
+		exploreJob(j, r, makeSys(j.s("c", ""), j), nil)
+	}
+	jobKinds["linkeddeep"] = func(j Job, r *JobResult) {
+		exploreJob(j, r, makeSys(j.s("c", ""), j), func(e *Explorer) {
+			e.OnState = func(path []Op, build func() Inst, st *Stats) *Viol {
+				b := build().(Box)
+				// Each and the iterator agree with the insertion-order reference (String/ToJSON text order
+				// need printable keys and are covered by the fixed-universe jobs)
+				if ea, ok := b.(eacher); ok {
+					got, exp := ea.EachSeq(), b.ExpSeq()
+					if len(got) != len(exp) {
+						return viol(tag("C09"), "mismatch", "Each visited %d elements, reference has %d", len(got), len(exp))
+					}
+					for i := range got {
+						if !pairEq(got[i], exp[i]) {
+							return viol(tag("C09"), "mismatch", "Each visit #%d = %v, insertion-order reference %v", i, got[i], exp[i])
+						}
+					}
+					st.Nested["each_orders_checked"]++
+				}
+				return nil
 			}
 		})
 	}
